@@ -41,3 +41,58 @@ let c09_ws_class args =
   | _ -> raise (Bad "c09_ws_class args")
 
 let () = register "c09_ws_class" c09_ws_class
+
+(* the language-level classes of Spec/C09MultiLangSpec.v (c9m_lknown: those of c9m_known, then C09-multi-emitted-generic and
+   C09-kotlin-inline-generic; c9m_lknown_crate: the own-crate classes of definitions, sealed parents and helpers), for the
+   language AND the prefix the run is made under.
+
+   (c09_ws_lclass LANG PREFIX ((PATH FILE TSTRS) ...))
+     PREFIX  the --kotlin-prefix / --swift-prefix of the run as a string atom (`s` = none)
+   answer: ((status ..) (class none | (some CLASS))      = c9m_lknown_ws LANG PREFIX arrivals
+            (base none | (some CLASS))                   = c9m_known_ws arrivals (the language-independent classes)
+            (ids_wf BOOL)
+            (files ((CRATE FILE-CLASS CRATE-CLASS) ..)))  per arrival: c9m_lknown_file LANG PREFIX arrivals crate parsed,
+                                                          c9m_lknown_crate LANG arrivals crate
+
+   (c09_ws_good LANG PREFIX files CRATE OBS)
+     OBS     (DEFS REFS) as in the c09 command: the observation of the file generated for CRATE
+   answer: ((status ..) (good BOOL)                       = good_C09_multi LANG PREFIX arrivals CRATE OBS
+            (bad_defs (NAME ..)) (bad_refs ((IN POS NAME) ..)))   those c9m_ldef_okb / c9m_lref_okb reject *)
+let with_arrivals09m lang files (k : Model.lang -> (Model.str * Model.parsed) list -> sx list) (dflt : sx list) =
+  let l = lang09m lang in
+  let ign = Model.ignored_reference_types l [] in
+  let entries = to_list entry09m files in
+  match Model.parse_workspace uc [] ign (fun l -> l) entries with
+  | Model.Err e -> L (L [A "status"; L [A "err"; perr_to_sx e]] :: dflt)
+  | Model.Panic s -> L (L [A "status"; L [A "panic"; A (coqstring s)]] :: dflt)
+  | Model.Ok arrivals -> L (L [A "status"; A "ok"] :: k l arrivals)
+
+let c09_ws_lclass args =
+  match args with
+  | [A lang; pfx; files] ->
+    let pfx = to_str pfx in
+    let cls o = of_opt (fun s -> A (coqstring s)) o in
+    with_arrivals09m lang files
+      (fun l arrivals ->
+         [ L [A "class"; cls (Model.c9m_lknown_ws l pfx arrivals)];
+           L [A "base"; cls (Model.c9m_known_ws arrivals)];
+           L [A "ids_wf"; of_bool (Model.c9m_ids_wf arrivals)];
+           L [A "files"; of_list (fun (c, pd) -> L [str_to_atom c; cls (Model.c9m_lknown_file l pfx arrivals c pd);
+                                                    cls (Model.c9m_lknown_crate l arrivals c)]) arrivals] ])
+      [L [A "class"; A "none"]; L [A "base"; A "none"]; L [A "ids_wf"; A "false"]; L [A "files"; L []]]
+  | _ -> raise (Bad "c09_ws_lclass args")
+
+let c09_ws_good args =
+  match args with
+  | [A lang; pfx; files; crate; obs] ->
+    let pfx = to_str pfx and b = to_str crate and o = Drv_c09.c09_to_obs obs in
+    with_arrivals09m lang files
+      (fun l arrivals ->
+         [ L [A "good"; of_bool (Model.good_C09_multi l pfx arrivals b o)];
+           L [A "bad_defs"; of_list str_to_atom (List.filter (fun d -> not (Model.c9m_ldef_okb l arrivals b pfx d)) o.Model.c9_defs)];
+           L [A "bad_refs"; of_list Drv_c09.c09_of_ref (List.filter (fun r -> not (Model.c9m_lref_okb l arrivals b pfx r)) o.Model.c9_refs)] ])
+      [L [A "good"; A "false"]; L [A "bad_defs"; L []]; L [A "bad_refs"; L []]]
+  | _ -> raise (Bad "c09_ws_good args")
+
+let () = register "c09_ws_lclass" c09_ws_lclass
+let () = register "c09_ws_good" c09_ws_good
